@@ -149,7 +149,7 @@ def stats_case(draw):
     items = draw(number_list(positive))
     perm = draw(st.permutations(items))
     return {'items': items, 'args': regroup(draw, items), 'perm_args': regroup(draw, list(perm)),
-            'how': draw(st.lists(st.sampled_from(['var', 'lit', 'range']), min_size=1, max_size=3)), 'k': draw(st.integers(1, len(items)))}
+            'how': draw(st.lists(st.sampled_from(['var', 'lit', 'range']), min_size=1, max_size=3)), 'k': draw(st.integers(1, len(items))), 'derived': draw(st.integers(0, 4)) == 0}
 
 
 STATS = ['SUM', 'PRODUCT', 'AVERAGE', 'MIN', 'MAX', 'COUNT', 'MEDIAN', 'MODE', 'VAR', 'VAR.S', 'VARP', 'VAR.P', 'STDEV', 'STDEV.S', 'STDEVP', 'STDEV.P', 'AVEDEV', 'GEOMEAN', 'HARMEAN']
@@ -178,11 +178,30 @@ def reference(name, xs):
     raise KeyError(name)
 
 
+def derive_classes(v):
+    # the same numbers as instances of classes that merely derive from int / float (IntEnum members, numpy-style scalars are such values)
+    from ..values import SubInt, SubFloat
+    if isinstance(v, list):
+        return [derive_classes(x) for x in v]
+    if isinstance(v, bool) or v is None:
+        return v
+    if isinstance(v, int):
+        return SubInt(v)
+    if isinstance(v, float):
+        return SubFloat(v)
+    return v
+
+
 def check_stats(case):
     items = case['items']
     kw1, kw2 = {}, {}
     A1 = ','.join(bind(case['args'], case['how'], kw1))
     A2 = ','.join(bind(case['perm_args'], case['how'][::-1], kw2))
+    if case.get('derived'):
+        for kw in (kw1, kw2):
+            for group in ('vars', 'ranges', 'cells'):
+                for k in list(kw.get(group, {})):
+                    kw[group][k] = derive_classes(kw[group][k])
     e1, e2 = Env(**kw1), Env(**kw2)
     counts = {}
     for x in items:
@@ -357,7 +376,10 @@ def crit_text(crit):
     if crit[0] == 'op':
         return crit[1] + num(crit[2])
     if crit[0] == 'num':
-        return num(crit[1])
+        v = crit[1]
+        if len(crit) > 2 and crit[2] == 'other-class' and float(v).is_integer() and abs(v) < 1e15:
+            return ('%d' % v) if isinstance(v, float) else ('%d.0' % v)        # 2.0 asked for as "2", 3 as "3.0": the same number
+        return num(v)
     return crit[1]
 
 
@@ -371,7 +393,7 @@ def crit_and_range(draw, n):
     if kind in ('op', 'num'):
         cells = draw(st.lists(cell_num, min_size=n, max_size=n))
         pivot = draw(st.one_of(st.sampled_from(cells), cell_num))
-        crit = ['op', draw(st.sampled_from(sorted(OPS))), pivot] if kind == 'op' else ['num', pivot]
+        crit = ['op', draw(st.sampled_from(sorted(OPS))), pivot] if kind == 'op' else (['num', pivot, 'other-class'] if draw(st.booleans()) else ['num', pivot])
         return crit, cells
     cells = draw(st.lists(WORD, min_size=n, max_size=n))
     w = draw(st.sampled_from(cells))
